@@ -184,6 +184,13 @@ def unquote_letters(string):
 # NOTE: brackets delimit an ipv6 literal in the authority: a raw one in the
 # userinfo makes the whole url unparseable
 UNSAFE_FOR_AUTH_ITEM = b" @:/?#%[]"
+# NOTE: the standard parser refuses a netloc holding one of the characters that
+# NFKC normalization turns into a delimiter ("\uff0f" is a fullwidth "/",
+# "\u2105" reads "c/o"): escaped in the userinfo, they must stay so
+NETLOC_LOOKALIKES = (
+    "\u2047\u2048\u2049\u2100\u2101\u2105\u2106\u2a74\ufe13\ufe16"
+    "\ufe55\ufe56\ufe5f\ufe6b\uff03\uff0f\uff1a\uff1f\uff20"
+)
 # NOTE: only the first "=" of a query item is a delimiter, so it is harmless
 # within a query value
 UNSAFE_FOR_QUERY_VALUE = b" &#%"
@@ -197,7 +204,7 @@ safely_unquote_auth_item = partial(
     only_printable=True,
     normalize_space=True,
     escape_dangling=True,
-    escape_raw="@",
+    escape_raw="@" + NETLOC_LOOKALIKES,
     unsafe=UNSAFE_FOR_AUTH_ITEM,
 )
 safely_unquote_password = partial(
@@ -205,7 +212,7 @@ safely_unquote_password = partial(
     only_printable=True,
     normalize_space=True,
     escape_dangling=True,
-    escape_raw="@:",
+    escape_raw="@:" + NETLOC_LOOKALIKES,
     unsafe=UNSAFE_FOR_AUTH_ITEM,
 )
 safely_unquote_path = partial(
